@@ -53,6 +53,24 @@ CLAIMED = {
          "peer-action/destroy/cancel/shift, each in an isolated process under ASan+UBSan with _GLIBCXX_SANITIZE_VECTOR and asserts enabled) checks that model and library agree and never get there.", "5 C17",
          TB + "Partial by nature: the theorems are about logic-level validity of lookups, indices and lifetimes; memory safety of the compiled code is evidenced by the sanitizer runs on the same histories, not proved.",
          "Coq proof (bookkeeping invariants) + sanitizer-instrumented correspondence on random legal histories"),
+ "C11": ("proof", "Theorems ctor_outcome_total (the dissector is a total function whose outcomes are values or std::exception-derived exceptions), regex_input_bounded_uri / "
+         "regex_input_bounded_pair (whatever the input length, at most 1095 / 32 bytes reach the recursive regex matcher), trim_path_is_prefix. Correspondence: the real constructors run on "
+         "hostile and megabyte-long inputs, each in its own process on a thread with a painted 512 KiB stack; what is handed to getaddrinfo (interposed) or thrown before must equal the model's "
+         "dissector; outcome must be value/exception, stack high-water mark is bounded (measured <= ~305 kB = 272 B/char x 1095 + base).", "5 C11",
+         TB + "Partial: stack consumption is runtime behaviour of libstdc++'s regex executor; the theorem bounds what is handed to it, the harness measures the stack. The hand characterisation of the "
+         "three regular expressions is validated by the correspondence, not proved against std::regex.",
+         "Coq proof (length bound of regex subjects for all inputs) + isolated-process differential execution with stack measurement"),
+ "C12": ("proof", "Theorems no_silent_wrap_uri / no_silent_wrap_pair (for EVERY byte string accepted, a service text that is numeric in strtoul's syntax has a value in 0..65535 — after the colon, as "
+         "scheme, as pair argument with sign/blanks), pair_service_unchanged, port_of_encode4/6. Correspondence against the real resolver: literals x ports in every documented spelling, out-of-range "
+         "numerics in every position; getaddrinfo arguments and to_string composition compared with the model; accessors, canonical host text, re-parse equality monitored.", "5 C12",
+         TB + "glibc's numeric-service rule (strtoul syntax, value mod 2^16) and canonical host text are trusted/observed. Spelling-equivalence is validated by the correspondence (model dissector == real "
+         "constructor on every generated spelling), the general spelling theorems are not proved yet.",
+         "Coq proof (range check covers every service position, all inputs) + differential execution against the real resolver"),
+ "C13": ("proof", "Theorems eq_equivalence, lt_irrefl, lt_trans, lt_trichotomy, hash_respects_eq (every hash function), encode4_injective, encode6_injective, families_never_equal. Correspondence: a pool "
+         "of Addresses of every provenance (parsed spellings, Address(port), local/peer/accept/datagram-source addresses of real IPv4 and IPv6 loopback sockets, single-bit neighbours); raw sockaddr bytes "
+         "run through the model's view_eq/view_lt and compared with ==, < for all pairs; laws, hash, std::map/unordered_map and endpoint agreement monitored on all pairs and triples.", "5 C13",
+         TB + "Provenance independence rests on kernel and glibc producing the canonical encoding (zero padding / flowinfo): validated on every run, not proved. v4-mapped peers of dual-stack listeners differ in family (documented).",
+         "Coq proof (order/equivalence laws, injectivity of sockaddr encodings) + all-pairs differential execution on real sockets"),
  "C16": ("proof", "Theorems wait_never_fails_with_eintr, step_wait_never_fails_with_eintr, interrupted_wait_keeps_timeout_semantics, eintr_transparent_unlimited and the "
          "lifts to Send/Receive for every script (any number and timing of EINTR); correspondence with 0-5 injected EINTR results per wait.", "5 C16",
          TB + "EINTR injected at the libc boundary by the virtual OS.",
